@@ -1,4 +1,6 @@
 #!/bin/bash
 # Regenerates coq/_CoqProject from the .v files present (gen/ excluded). coq_makefile + coqdep order them.
+# Same content and order as harness/core.py:coq_build writes (LC_ALL=C = Python's sorted()).
 cd /verif/coq || exit 1
+export LC_ALL=C
 { echo "-Q . Cassis"; ls *.v | sort; ls Props/*.v | sort; } > _CoqProject.tmp && mv _CoqProject.tmp _CoqProject
